@@ -398,10 +398,19 @@ fn hit(log: &Log, svc: u8, m: u8, r: Request<RawMsg>) -> Result<Response<RawMsg>
     Ok(Response::new(msg))
 }
 
-fn ident(r: Request<()>) -> Result<Request<()>, Status> {
-    Ok(r)
+/// method index used in the log for "the interceptor wrapped around service `svc` ran"
+const ICPT: u8 = 255;
+
+/// Identity interceptor that records that it was reached: a request that is routed into a service's wrapper
+/// has reached that service, whatever the wrapper then answers.
+#[derive(Clone)]
+struct LogIcpt(Log, u8);
+impl tonic::service::Interceptor for LogIcpt {
+    fn call(&mut self, r: Request<()>) -> Result<Request<()>, Status> {
+        self.0.lock().unwrap().push((self.1, ICPT, vec![]));
+        Ok(r)
+    }
 }
-type Icpt = fn(Request<()>) -> Result<Request<()>, Status>;
 
 enum Sink {
     /// `Routes::new(first).add_service(..)`
@@ -464,10 +473,10 @@ macro_rules! pool_handlers {
             match (idx, wrap % N_WRAP) {
                 $(
                     ($idx, 0) => put!(sink, pool::$modn::$srvmod::$server::new($h(log.clone()))),
-                    ($idx, 1) => put!(sink, InterceptedService::new(pool::$modn::$srvmod::$server::new($h(log.clone())), ident as Icpt)),
-                    ($idx, 2) => put!(sink, InterceptorLayer::new(ident as Icpt).named_layer(pool::$modn::$srvmod::$server::new($h(log.clone())))),
-                    ($idx, 3) => put!(sink, tower_layer::Identity::new().named_layer(pool::$modn::$srvmod::$server::with_interceptor($h(log.clone()), ident as Icpt))),
-                    ($idx, _) => put!(sink, InterceptedService::new(tower_layer::Identity::new().named_layer(pool::$modn::$srvmod::$server::new($h(log.clone()))), ident as Icpt)),
+                    ($idx, 1) => put!(sink, InterceptedService::new(pool::$modn::$srvmod::$server::new($h(log.clone())), LogIcpt(log.clone(), $idx))),
+                    ($idx, 2) => put!(sink, InterceptorLayer::new(LogIcpt(log.clone(), $idx)).named_layer(pool::$modn::$srvmod::$server::new($h(log.clone())))),
+                    ($idx, 3) => put!(sink, tower_layer::Identity::new().named_layer(pool::$modn::$srvmod::$server::with_interceptor($h(log.clone()), LogIcpt(log.clone(), $idx)))),
+                    ($idx, _) => put!(sink, InterceptedService::new(tower_layer::Identity::new().named_layer(pool::$modn::$srvmod::$server::new($h(log.clone()))), LogIcpt(log.clone(), $idx))),
                 )*
                 _ => unreachable!("pool index out of range"),
             }
@@ -603,7 +612,7 @@ fn show(s: &Seen) -> String {
         s.content_type.as_ref().map(|v| String::from_utf8_lossy(v).into_owned()),
         s.grpc_status.iter().map(|v| String::from_utf8_lossy(v).into_owned()).collect::<Vec<_>>(),
         hex(&s.body),
-        s.log.iter().map(|(i, m, _)| format!("{}::{}", full_name(*i), POOL_METHODS[*m as usize])).collect::<Vec<_>>()
+        s.log.iter().map(|(i, m, _)| if *m == ICPT { format!("{}::<interceptor>", full_name(*i)) } else { format!("{}::{}", full_name(*i), POOL_METHODS[*m as usize]) }).collect::<Vec<_>>()
     )
 }
 
@@ -615,9 +624,12 @@ fn judge(reg: &[(u8, u8)], pq: &str, payload: &[u8], seen: &Seen, near: Near, or
     match want {
         Some((i, m)) => {
             let w = reg.iter().find(|(j, _)| *j == i).map(|(_, w)| *w).unwrap_or(0);
-            ensure!(!seen.log.is_empty(), format!("C10/exact-path-not-dispatched/wrap{w}"), "no handler ran for an exact registered path; {ctx}");
-            ensure!(seen.log.len() == 1, "C10/dispatched-more-than-once", "{ctx}");
-            let (gi, gm, gp) = &seen.log[0];
+            // wrappers (interceptors) of the addressed service may run; those of other services may not
+            ensure!(seen.log.iter().filter(|e| e.1 == ICPT).all(|e| e.0 == i), "C10/dispatched-through-another-services-wrapper", "{ctx}");
+            let handlers: Vec<&(u8, u8, Vec<u8>)> = seen.log.iter().filter(|e| e.1 != ICPT).collect();
+            ensure!(!handlers.is_empty(), format!("C10/exact-path-not-dispatched/wrap{w}"), "no handler ran for an exact registered path; {ctx}");
+            ensure!(handlers.len() == 1, "C10/dispatched-more-than-once", "{ctx}");
+            let (gi, gm, gp) = handlers[0];
             ensure!(*gi == i, "C10/dispatched-to-wrong-service", "expected {}; {ctx}", full_name(i));
             ensure!(*gm == m, "C10/dispatched-to-wrong-method", "expected method {}; {ctx}", POOL_METHODS[m as usize]);
             ensure!(gp == payload, "C10/handler-saw-different-message", "handler got {} expected {}; {ctx}", hex(gp), hex(payload));
@@ -626,7 +638,14 @@ fn judge(reg: &[(u8, u8)], pq: &str, payload: &[u8], seen: &Seen, near: Near, or
             ensure!(seen.body == wire::frame(0, payload), "C10/dispatched-response-body", "echo handler; {ctx}");
         }
         None => {
-            ensure!(seen.log.is_empty(), format!("C10/handler-reached-on-nonmatching-path/{}", near.tag()), "{ctx}");
+            // no handler; a service's wrapper (interceptor) may only have seen the request if the path
+            // really is below that service's name (unknown method of a registered service)
+            let handlers = seen.log.iter().filter(|e| e.1 != ICPT).count();
+            ensure!(handlers == 0, format!("C10/handler-reached-on-nonmatching-path/{}", near.tag()), "{ctx}");
+            for e in seen.log.iter().filter(|e| e.1 == ICPT) {
+                let below = path.strip_prefix('/').and_then(|p| p.strip_prefix(full_name(e.0).as_str())).map(|r| r.starts_with('/')).unwrap_or(false);
+                ensure!(below, "C10/foreign-path-reached-a-services-wrapper", "the interceptor wrapped around {} ran for a path outside that service; {ctx}", full_name(e.0));
+            }
             ensure!(seen.http_status == 200, "C10/unmatched-http-status", "{ctx}");
             ensure!(seen.content_type.as_deref() == Some(b"application/grpc"), "C10/unmatched-content-type", "{ctx}");
             ensure!(!seen.grpc_status.is_empty(), "C10/unmatched-no-grpc-status", "{ctx}");
@@ -840,7 +859,7 @@ impl Prop for C10 {
         run(c, o)
     }
     fn rule() -> &'static str {
-        "configuration = ordered subset of a 10-service pool (S, s, Sv, a.S, a.Sv, a.s, A.S, a.S.Tt, a.b.S, ab.S; methods M, m, Mm, M2 with recording echo handlers) x wrapper per service (bare, InterceptedService, Layered, two nestings) x build path (Routes::new/add_service, Routes::default, RoutesBuilder, optional prepare) x request-target form (origin / absolute); each case sends 1-8 paths (exact, one/two-edit mutants over a 32-char alphabet incl. '?', '%', '{', non-ASCII case-folding chars, case flips, 44 segment shapes, percent-encoded spellings, vocabulary joins, random URI paths, optional ?query) in-process through Routes as a tower Service, to the router built in the given order and to one built in a permuted order. Oracle: dispatch to (S,M) iff the text before the first '?' equals \"/\"+full name+\"/\"+method of a registered service (own table), then exactly that handler ran once with the sent message and the reply is grpc-status 0 + echo; otherwise no handler ran, HTTP 200, content-type application/grpc, grpc-status 12; both orders must agree. Non-trivial: some path is a one-edit / case / prefix / extension mutant of a registered exact path, or the registered set contains names that are prefixes of one another. Distinct = distinct serialised case."
+        "configuration = ordered subset of a 10-service pool (S, s, Sv, a.S, a.Sv, a.s, A.S, a.S.Tt, a.b.S, ab.S; methods M, m, Mm, M2 with recording echo handlers) x wrapper per service (bare, InterceptedService, Layered, two nestings) x build path (Routes::new/add_service, Routes::default, RoutesBuilder, optional prepare) x request-target form (origin / absolute); each case sends 1-8 paths (exact, one/two-edit mutants over a 32-char alphabet incl. '?', '%', '{', non-ASCII case-folding chars, case flips, 44 segment shapes, percent-encoded spellings, vocabulary joins, random URI paths, optional ?query) in-process through Routes as a tower Service, to the router built in the given order and to one built in a permuted order. Oracle: dispatch to (S,M) iff the text before the first '?' equals \"/\"+full name+\"/\"+method of a registered service (own table), then exactly that handler ran once with the sent message and the reply is grpc-status 0 + echo; otherwise no handler ran, HTTP 200, content-type application/grpc, grpc-status 12; both orders must agree. Non-trivial: some path is a one-edit / case / prefix / extension mutant of a registered exact path, or the registered set contains names that are prefixes of one another. Distinct = distinct serialised case. Also: services wrapped in interceptors that record every path they see: a path that names no registered service reaches no wrapper, a dispatched path only the wrapper of its own service."
     }
     fn assumptions() -> Vec<String> {
         vec![
